@@ -55,7 +55,9 @@ SStart ==
 SWire ==
   /\ Is("Wire") /\ now = Ev.t /\ Consume
   /\ Flag(Ev.ok, "WireContent")
-  /\ IF Ev.w = "request"
+  /\ IF Ev.c \notin Callers
+     THEN UNCHANGED vars                                   \* a message no caller can be held to have written (flagged above)
+     ELSE IF Ev.w = "request"
      THEN reqWritten[Ev.c] = 1 /\ UNCHANGED vars          \* written by Start
      ELSE IF cancelNotifs[Ev.c] = 1
           THEN UNCHANGED vars                                \* written by Start (pre-cancelled)
@@ -126,7 +128,9 @@ OStart ==
 OWire ==
   /\ Is("Wire") /\ Consume /\ Flag(Ev.ok, "WireContent")
   /\ now' = Ev.t
-  /\ IF Ev.w = "request"
+  /\ IF Ev.c \notin Callers
+     THEN UNCHANGED <<reqWritten, cancelNotifs>>
+     ELSE IF Ev.w = "request"
      THEN reqWritten' = [reqWritten EXCEPT ![Ev.c] = @ + 1] /\ UNCHANGED cancelNotifs
      ELSE cancelNotifs' = [cancelNotifs EXCEPT ![Ev.c] = @ + 1] /\ UNCHANGED reqWritten
   /\ UNCHANGED <<inq, narr, cfg, st, deadline, pollAt, outcome, cancelled, cancelAt, progLog, progArr, firstMatch, startedAt>>
